@@ -431,23 +431,40 @@ Definition compile_in_obj (g : G) (o : nat) (m : model) (vec clr : bool) : G * o
    ImportError when sys.modules[<file>] is the Python module of an uncleared default-backend compilation (D19);
    the routine of the FIRST extension module imported under <file> in this process otherwise (D29) *)
 Definition with_dy (o : obs) (dy : list Qc) : obs := match o with OOk n k s _ => OOk n k s dy | _ => o end.
-Definition fcompile_obj (g : G) (o : nat) (m : model) (file : string) (clr : bool) : G * obs :=
+(* FOURTH SWITCH: false = PyRates as it is (D29/D19: `from <file> import <file>`); true = with /verif/fixes/fix_D96.diff: f2py builds the
+   extension under a module name that is unique per generated source (<file>_<sha256(source)[:12]>) and the routine is fetched from
+   that module: the table of extension modules is in effect keyed by (file name, source), a hit requires the same source, and a
+   Python module registered under <file> no longer gets in the way.  harness/c13.py reads this line. *)
+Definition fixed_D29 : bool := false.
+
+Definition has_ext (file : string) (src : code) (t : list (string * code)) : bool :=
+  existsb (fun e => String.eqb file (fst e) && code_eqb src (snd e)) t.
+
+Definition fcompile_obj_k (fd : bool) (g : G) (o : nat) (m : model) (file : string) (clr : bool) : G * obs :=
   let c := compile_core (op_cache g) (node_cache g) (node_labels g) (in_edge_indices g) (in_edge_vars g) [] m false in
   let g1 := after_compile g c (module_cache g) in
   match c_obs c with
   | OOk _ _ _ _ =>
-      if existsb (String.eqb file) (sys_py (mods g)) then (g1, OErr "ImportError")
+      if negb fd && existsb (String.eqb file) (sys_py (mods g)) then (g1, OErr "ImportError")
       else
-        let modl := match lookup String.eqb file (ext_mods (mods g)) with Some s => s | None => c_src c end in
-        let ext' := match lookup String.eqb file (ext_mods (mods g)) with
-                    | Some _ => ext_mods (mods g) | None => (file, c_src c) :: ext_mods (mods g) end in
+        let modl := if fd then c_src c
+                    else match lookup String.eqb file (ext_mods (mods g)) with Some s => s | None => c_src c end in
+        let ext' := if fd then (if has_ext file (c_src c) (ext_mods (mods g)) then ext_mods (mods g)
+                                else (ext_mods (mods g) ++ [(file, c_src c)])%list)
+                    else match lookup String.eqb file (ext_mods (mods g)) with
+                         | Some _ => ext_mods (mods g) | None => (file, c_src c) :: ext_mods (mods g) end in
         let g2 := set_mods {| sys_py := sys_py (mods g); ext_mods := ext'; obj_file := obj_file (mods g) |} g1 in
         (if clr then set_ir o false (clear_caches o g2) else set_ir o true g2, with_dy (c_obs c) (run_code modl (c_args c)))
   | _ => (g1, c_obs c)
   end.
+Definition fcompile_obj := fcompile_obj_k fixed_D29.
 
 Definition reg_file (o : nat) (file : string) (g : G) : G :=
   set_mods {| sys_py := sys_py (mods g); ext_mods := ext_mods (mods g); obj_file := upsert Nat.eqb o file (obj_file (mods g)) |} g.
+
+(* one Fortran compilation as a step (parameterised by the switch, for statements that hold for either value) *)
+Definition fstep_k (fd : bool) (g : G) (m : model) (file : string) (clr : bool) : G * obs :=
+  let '(g1, ob) := new_obj g in fcompile_obj_k fd (reg_file ob file (push_handle ob g1)) ob m file clr.
 
 (* the template the YAML file on disk defines, with the update_var mutation the cached object carries *)
 Definition E1 : expr := Add (Neg (Mul VK VX)) VR.
@@ -484,8 +501,7 @@ Definition step_with (fx : bool) (g : G) (o : hop) : G * obs :=
       let '(g1, ob) := new_obj g in compile_obj (push_handle ob g1) ob m vec clr
   | CompileIn m vec clr _ =>
       let '(g1, ob) := new_obj g in compile_in_obj (push_handle ob g1) ob m vec clr
-  | FCompile m file clr =>
-      let '(g1, ob) := new_obj g in fcompile_obj (reg_file ob file (push_handle ob g1)) ob m file clr
+  | FCompile m file clr => fstep_k fixed_D29 g m file clr
   | YLoad clr =>
       let '(g1, e) := from_yaml g in compile_obj (push_handle (tc_obj e) g1) (tc_obj e) (ymodel (tc_kA e)) false clr
   | YUpd v =>
@@ -520,6 +536,7 @@ Definition trace := trace_with fixed_clear.
 (* the observable of model m compiled in state g (compilations do not depend on the switch) *)
 Definition obs_of (g : G) (m : model) (vec : bool) : obs := snd (step_with false g (Compile m vec false false)).
 Definition obs_of_yaml (g : G) : obs := snd (step_with false g (YLoad false)).
+Definition obs_of_fortran_k (fd : bool) (g : G) (m : model) (file : string) : obs := snd (fstep_k fd g m file false).
 Definition obs_of_fortran (g : G) (m : model) (file : string) : obs := snd (step_with false g (FCompile m file false)).
 
 (* the guard: the history leaves the components a compilation reads as a fresh process has them *)
